@@ -45,6 +45,7 @@ func checkHistory(h history, sec *vk.Section) error {
 			break
 		}
 	}
+	cls = append(cls, "scratch:"+scratchParent(!h.Disk))
 	sec.Case(false, 0, append([]string{"run.no-crash"}, cls...)...)
 	sec.Sample(func() any { return h.String() + " crash=none points=" + fmt.Sprint(base.points) })
 	for w := range h.Writes {
@@ -168,7 +169,7 @@ func TestCrashSweep(t *testing.T) {
 				if !vk.Mine(idx) {
 					continue
 				}
-				h := history{Nested: nested, Writes: ws, Recov: rv, Crash2: -1}
+				h := history{Nested: nested, Writes: ws, Recov: rv, Crash2: -1, Disk: !nested}
 				if err := checkHistory(h, sec); err != nil {
 					t.Fatalf("%v", err)
 				}
@@ -226,8 +227,8 @@ func TestPinnedStaleNewLink(t *testing.T) {
 	a := wset{{"a", 8}}
 	b := wset{{"b", 8}}
 	for _, h := range []history{
-		{Writes: []wset{a}, Recov: []wset{b}, Crash2: -1},
-		{Writes: []wset{a, b}, Recov: []wset{a, b}, Crash2: -1},
+		{Writes: []wset{a}, Recov: []wset{b}, Crash2: -1, Disk: true},
+		{Writes: []wset{a, b}, Recov: []wset{a, b}, Crash2: -1, Disk: true},
 		{Nested: true, Writes: []wset{{}, a, b}, Recov: []wset{{}}, Crash2: -1},
 	} {
 		w := len(h.Writes) - 1
